@@ -4,7 +4,7 @@
    Spec/GreedyOk.v (the decidable side condition), Spec/LangDec.v (the decider inL);
    proofs are in Proofs/C01_*.v. *)
 From MP Require Import Common.Base Gen.Tables Model.Rule Spec.Lang Spec.GreedyOk Spec.LangDec
-  Proofs.C01_Total Proofs.C01_Sound Proofs.C01_Main Proofs.C01_Table.
+  Proofs.C01_Total Proofs.C01_Sound Proofs.C01_Main Proofs.C01_Table Proofs.C01_Tight.
 
 (** Table obligation: the children section of every shipped rule parses to a spec of the
     greedy_ok shape (complete enumeration, re-run against the working tree). *)
@@ -62,10 +62,21 @@ Theorem C01_sandwich : forall top mixed pname w,
 Proof. exact C01_sandwich_proof. Qed.
 Print Assumptions C01_sandwich.
 
+(** The side condition is needed: outside it the greedy matcher rejects words of the language
+    (five shapes, one per clause, in Proofs/C01_Tight.v). *)
+Theorem C01_side_condition_needed :
+  exists sp w, greedy_ok sp = false /\ L false sp w /\ validate_children (Some sp) false (s "p") w <> Some [].
+Proof. exact side_condition_needed_proof. Qed.
+Print Assumptions C01_side_condition_needed.
+
 (** The language is decidable; [inL] is the oracle of the statement search. *)
 Theorem C01_inL_correct : forall mixed sp w, inL mixed sp w = true <-> L mixed sp w.
 Proof. exact inL_correct. Qed.
 Print Assumptions C01_inL_correct.
+
+Theorem C01_inLlen_correct : forall mixed sp w, inLlen mixed sp w = true <-> Llen mixed sp w.
+Proof. exact inLlen_correct. Qed.
+Print Assumptions C01_inLlen_correct.
 
 (** C01 for the shipped table: every rule, every parent name but [metadata] (C05's clause),
     every sequence of child names, mixed-content flag as rule.py computes it. *)
